@@ -74,6 +74,11 @@ CLAIMED["C17"] = ("static: separator-discipline rule (guard of every conditional
   "Trusts strings.Index/Count. Does not decide split/join inverse law nor the generated sequences.",
   "DESIGN.md §3 C17")
 
+CLAIMED["C07"] = ("static path enumeration over go/cfg of the sampling methods (same accumulation set on every path, parse-failure paths counted and not sampled), shape rules for the sub-key counter's rebuild/shift, post-dominance of the min and max comparisons, ordering of count vs divisor, E-PANIC obligations of pkg/aggregation",
+  "Decides the redundant-state clauses: totals are accumulated together with their cells on every path, parallel slices stay aligned by construction, parse errors are counted and never sampled, min and max are updated independently, all indexing is in range. Does not decide the numeric results.",
+  "Trusts sort.Sort's index contract and the reviewed entries. Value-level equality with the fold of the history is out of reach.",
+  "DESIGN.md §3 C07")
+
 PENDING_REASON = "static check for this property is designed in DESIGN.md §3 but not yet built in this revision of /verif; not claimed until it runs"
 
 def main():
